@@ -83,9 +83,11 @@ class MessageExtractor:
                     code = "%s | %s" % (code, node.escapes)
             elif isinstance(node, parsetree.NamespaceTag):
                 # the defs written inside of a <%namespace>
+                in_translator_comments = False
                 yield from self.extract_nodes(node.nodes)
                 continue
             else:
+                in_translator_comments = False
                 continue
 
             # Comments don't apply unless they immediately precede the message
